@@ -31,8 +31,9 @@ def text_of(name, n, salt):
     return ('AE' + 'X' * 62)[:min(n, 16)]
 
 
-def run_sequence(cls_index, ops, rng, max_len):
-    """Returns (trace, problems)."""
+def run_sequence(cls_index, ops, rng, max_len, unset=0.0):
+    """Returns (trace, problems).  unset: probability with which an optional / conditional numeric field is left
+    without a value (as the services do for Move Originator Message ID, Priority, the sub-operation counters...)."""
     cls = D.dm.MESSAGE_TYPE[CODE[cls_index - 1]]
     msg = cls()
     var = [f for f in cls.command_fields if f in VAR_FIELDS]
@@ -43,6 +44,8 @@ def run_sequence(cls_index, ops, rng, max_len):
         if name in ('MessageID', 'MessageIDBeingRespondedTo', 'Status', 'Priority', 'EventTypeID', 'ActionTypeID',
                     'NumberOfRemainingSuboperations', 'NumberOfCompletedSuboperations', 'NumberOfFailedSuboperations',
                     'NumberOfWarningSuboperations', 'MoveOriginatorMessageID'):
+            if unset and rng.random() < unset:
+                continue
             setattr(msg.command_set, name, rng.choice([0, 1, 0xFFFF, rng.randint(0, 0xFFFF)]))
     tr = [{'ev': 'New', 'cls': cls_index}]
     problems = []
@@ -127,8 +130,8 @@ def main(tier='quick'):
             else:
                 ops.append({'op': 'SEND'})
         ops.append({'op': 'SEND'})
-        tr, problems = run_sequence(c, ops, rng, rng.choice([16384, 128, 20]))
-        metas.append({'cls': c, 'ops': ops, 'src': 'random'})
+        tr, problems = run_sequence(c, ops, rng, rng.choice([16384, 128, 20]), unset=(0.35 if i % 2 else 0.0))
+        metas.append({'cls': c, 'ops': ops, 'src': 'random', 'unset': (0.35 if i % 2 else 0.0)})
         traces.append(tr)
         for pr in problems:
             v.report({'site': 'dimsemessages', 'clause': 'send', 'cls': c}, '%s (class %d, ops %r)' % (pr, c, ops), replay=metas[-1])
@@ -157,11 +160,12 @@ def main(tier='quick'):
 
 def replay(doc):
     meta = doc['replay']
-    tr, problems = run_sequence(meta['cls'], meta['ops'], random.Random(0), 16384)
-    res, _ = tlc.validate_traces('Trace_MsgObject', 'Trace_MsgObject.cfg', [tr])
-    if problems or not res[0]['ok']:
-        print('REPRODUCED: %r %r' % (problems, tr[res[0]['reached']] if res[0]['reached'] < len(tr) else None))
-        return 1
+    runs = [run_sequence(meta['cls'], meta['ops'], random.Random(k), 16384, unset=meta.get('unset', 0.0)) for k in range(12 if meta.get('unset') else 1)]
+    res, _ = tlc.validate_traces('Trace_MsgObject', 'Trace_MsgObject.cfg', [tr for tr, _ in runs])
+    for (tr, problems), r in zip(runs, res):
+        if problems or not r['ok']:
+            print('REPRODUCED: %r %r' % (problems, tr[r['reached']] if r['reached'] < len(tr) else None))
+            return 1
     return 0
 
 
